@@ -15,6 +15,10 @@
 //! Oracle: `c02/oracle.rs` (independent re-parse of the parameters with exact arithmetic, std's UTF-8
 //! decoder, reference reading of SGR colours) and O lines (`SurfModel.Vt.utf8` of every character produced
 //! must be the bytes it was decoded from).
+#[path = "c04/dumps.rs"]
+mod dumps;
+#[path = "c04/events.rs"]
+mod events;
 #[path = "c02/geninp.rs"]
 mod geninp;
 #[path = "c02/oracle.rs"]
@@ -28,7 +32,8 @@ use std::io::Write;
 use std::path::{Path, PathBuf};
 use std::sync::Mutex;
 use std::time::{Duration, Instant};
-use surf_n_term::decoder::{verif_c02, verif_c03};
+use surf_n_term::decoder::{verif_c02, verif_c03, verif_c04};
+use surf_n_term::terminal::{TerminalCommand, TerminalEvent};
 use verif_harness::{Cfg, r#gen::Rng, out::Out, out::hex};
 
 // ---------------------------------------------------------------- batch files
@@ -329,7 +334,9 @@ fn static_correspondence(out: &mut Out, rng: &mut Rng, thorough: bool) {
                     json!(if std_ok { "accepted" } else { "rejected" }), json!(if acc { "accepted" } else { "rejected" }));
             }
             out.case(&format!("acc {}", hex(w)), acc);
-            if acc {
+            // `utf8_decode` is only ever handed well formed sequences here: on anything else the debug assertion
+            // of `from_u32_unchecked` would abort this (parent) process; the disagreement is already reported
+            if acc && std_ok {
                 accepted.push(w.clone());
             }
         }
@@ -368,6 +375,65 @@ fn static_correspondence(out: &mut Out, rng: &mut Rng, thorough: bool) {
         out.case(&format!("dec {}", hex(w)), true);
         out.hist(&format!("static:decode-{}-bytes", w.len()));
     }
+}
+
+// ---------------------------------------------------------------- generated table and grammar tie (as in c04.rs)
+
+/// `SurfModel/Generated/KeyTable.lean`, byte for byte what `c04 tables` writes
+fn key_table_lean() -> String {
+    let rows: Vec<(Vec<u8>, u64, u64, u64)> = verif_c04::key_table()
+        .into_iter()
+        .map(|(bytes, event)| match event {
+            TerminalEvent::Key(k) => {
+                let (v, p) = events::key_name_variant(k.name);
+                (bytes, v, p, events::mod_bits(k.mode))
+            }
+            _ => (bytes, 99, 0, 0),
+        })
+        .collect();
+    let mut s = String::new();
+    s.push_str("/-! Literal key table of `basic_events_nfa()` (src/decoder.rs), rewritten from the implementation on every\nrun (`c04 tables`, hook `verif_c04::key_table`): bytes, `KeyName` variant, its payload, modifier bits,\nin registration order. -/\n");
+    s.push_str("namespace SurfModel.Generated\n\n");
+    s.push_str("def keyTable : List (List Nat × Nat × Nat × Nat) := [\n");
+    for (i, (bytes, v, p, m)) in rows.iter().enumerate() {
+        let bs: Vec<String> = bytes.iter().map(|b| b.to_string()).collect();
+        s.push_str(&format!("  ([{}], {v}, {p}, {m}){}\n", bs.join(", "), if i + 1 == rows.len() { "" } else { "," }));
+    }
+    s.push_str("]\n\nend SurfModel.Generated\n");
+    s
+}
+
+/// the grammars of `SurfModel.Grammar` are the implementation's: dump equality of all matcher automata,
+/// bisimulation of the two compiled production automata with the model's; then the dumped tables are installed
+/// in the driver for the whole-decoder correspondence
+fn grammar_tie(out: &mut Out) {
+    let cmd_tag = |c: &TerminalCommand| format!("item:{c:?}").replace(' ', "_");
+    let ms = verif_c04::matcher_nfas();
+    if ms.len() != 14 {
+        out.corr("gram nfa 99", &format!("the event automaton has {} matchers, the model 14", ms.len()));
+    }
+    for (i, m) in ms.iter().enumerate() {
+        out.corr(&format!("gram nfa {i}"), &dumps::dump_nfa(&m.nfa, dumps::event_item_tag));
+        out.case(&format!("gram-nfa{i}"), true);
+        out.hist("static:matcher-nfa");
+    }
+    for (i, m) in verif_c04::command_matcher_nfas().iter().enumerate() {
+        out.corr(&format!("gram cnfa {i}"), &dumps::dump_nfa(&m.nfa, cmd_tag));
+        out.case(&format!("gram-cnfa{i}"), true);
+        out.hist("static:matcher-nfa");
+    }
+    let ev = verif_c04::event_dfa();
+    let ev_table = dumps::show_table(&ev, dumps::event_item_tag);
+    out.corr(&format!("gram bisim event | {ev_table}"), &format!("ok {}", ev.len()));
+    let cd = verif_c04::command_dfa();
+    let cd_table = dumps::show_table(&cd, cmd_tag);
+    out.corr(&format!("gram bisim command | {cd_table}"), &format!("ok {}", cd.len()));
+    out.corr(&format!("c02 table event {ev_table}"), &format!("ok {} termok=1", ev.len()));
+    out.corr(&format!("c02 table command {cd_table}"), &format!("ok {} termok=1", cd.len()));
+    out.hist("static:dfa-bisim");
+    out.hist("static:dfa-bisim");
+    out.extra("event_dfa_states", json!(ev.len()));
+    out.extra("command_dfa_states", json!(cd.len()));
 }
 
 // ---------------------------------------------------------------- main
@@ -417,7 +483,16 @@ fn main() {
     }
     let cfg = Cfg::from_env();
     let mut out = cfg.out();
-    if cfg.tables.is_some() {
+    if let Some(names) = &cfg.tables {
+        for name in names {
+            match name.as_str() {
+                "KeyTable" => std::fs::write(cfg.outdir.join("KeyTable.lean"), key_table_lean()).unwrap(),
+                other => {
+                    eprintln!("c02: unknown table {other}");
+                    std::process::exit(2);
+                }
+            }
+        }
         return;
     }
     let exe: PathBuf = std::env::current_exe().unwrap();
@@ -427,6 +502,7 @@ fn main() {
     let mut rng = Rng::new(cfg.seed);
 
     let inputs: Vec<Input> = if let Some(rep) = &cfg.replay {
+        grammar_tie(&mut out);
         let i = &rep["failure"]["input"];
         let kind = Kind::parse(i["decoder"].as_str().unwrap_or("event")).unwrap_or(Kind::Event);
         let stream = unhex(i["stream"].as_str().unwrap_or("-"));
@@ -437,6 +513,7 @@ fn main() {
         }
         vec![Input { id: 0, kind, class: "replay".into(), stream, parts }]
     } else {
+        grammar_tie(&mut out);
         static_correspondence(&mut out, &mut rng, cfg.thorough);
         generate(&mut rng, cfg.thorough)
     };
